@@ -120,6 +120,235 @@ def fold_local(project: Project, func: Func, expr):
     return UNKNOWN
 
 
+# ---------------------------------------------------------------------------
+# reading abilities shared by the C17/C18 rules: module-level literals, inert parameters, values of a local at a node
+# ---------------------------------------------------------------------------
+
+def _module_bindings(p: Project, mod, name: str) -> int:
+    """How many times the module binds `name` anywhere (top level, nested blocks, `global` writers in functions)."""
+    cache = p.__dict__.setdefault('_c17_modbind', {})
+    key = (mod.name, name)
+    if key not in cache:
+        n = 0
+        globals_in = False
+        for x in ast.walk(mod.tree):
+            if isinstance(x, ast.Global) and name in x.names:
+                globals_in = True
+        for s in ast.walk(mod.tree) if globals_in else _top_level_stmts(mod.tree):
+            if isinstance(s, ast.Name) and s.id == name and isinstance(s.ctx, (ast.Store, ast.Del)):
+                n += 1
+            elif isinstance(s, (ast.FunctionDef, ast.AsyncFunctionDef, ast.ClassDef)) and s.name == name and s in mod.tree.body:
+                n += 1
+            elif isinstance(s, (ast.Import, ast.ImportFrom)) and any((a.asname or a.name).split('.')[0] == name for a in s.names):
+                n += 1
+        cache[key] = n
+    return cache[key]
+
+
+def _top_level_stmts(tree):
+    """Every node of the module that executes at import time in module scope (does not enter def/class/lambda bodies)."""
+    stack = list(tree.body)
+    while stack:
+        n = stack.pop()
+        yield n
+        for c in ast.iter_child_nodes(n):
+            if isinstance(c, (ast.FunctionDef, ast.AsyncFunctionDef, ast.ClassDef, ast.Lambda)):
+                yield c
+                continue
+            stack.append(c)
+
+
+def module_literal(p: Project, func: Func, e):
+    """``(module, value expression)`` when `e` names a module-level constant of the analysed package that is bound exactly once
+    (`_BINARY_PAYLOAD_TYPES = (bytes, bytearray, memoryview)`, `_MARKER = 'code = 1000 (OK)'`, `_MIN_VERSION = (2, 3)`), looked
+    through aliases of such names; None for anything else (locals, parameters, names bound twice, non-literal values).  A literal is
+    a constant, a name of a builtin / class, or a tuple/list/set/frozenset display of literals."""
+    seen = 0
+    mod = func.module
+    cur = e
+    result = None
+    fn: Optional[Func] = func
+    while seen < 4 and isinstance(cur, (ast.Name, ast.Attribute)):
+        if isinstance(cur, ast.Name) and fn is not None:
+            g = fn
+            local = False
+            while g is not None:
+                if cur.id in g.params() or local_defs(g, cur.id):
+                    local = True
+                g = g.parent
+            if local:
+                return result
+        q = p.resolve_expr(mod, cur, fn)
+        if not q:
+            return result
+        head, _, tail = q.rpartition('.')
+        m2 = p.modules.get(head)
+        if m2 is None or tail not in m2.consts or _module_bindings(p, m2, tail) != 1:
+            return result
+        val = m2.consts[tail]
+        if not _is_literal(val):
+            return result
+        result = (m2, val)
+        mod, cur, fn = m2, val, None
+        seen += 1
+    return result
+
+
+def _is_literal(v) -> bool:
+    if isinstance(v, ast.Constant):
+        return True
+    if isinstance(v, (ast.Name, ast.Attribute)):
+        return True          # a builtin / class / other constant: resolved by the reader in the constant's module
+    if isinstance(v, (ast.Tuple, ast.List, ast.Set)):
+        return all(_is_literal(x) for x in v.elts)
+    if isinstance(v, ast.Call) and isinstance(v.func, ast.Name) and v.func.id in ('frozenset', 'tuple') and len(v.args) == 1 and not v.keywords:
+        return _is_literal(v.args[0])
+    return False
+
+
+def literal_of(p: Project, func: Func, e):
+    """``(module, expression)``: `e` itself in the module of `func`, or the module-level literal it names."""
+    r = module_literal(p, func, e) if isinstance(e, (ast.Name, ast.Attribute)) else None
+    return r if r is not None else (func.module, e)
+
+
+class CallSites:
+    """Every use of a method/function name in the analysed package: the calls (caller, call) and whether the name is also used
+    in a way that is not a plain call made inside a function (a bound-method reference handed around, a call in class/module
+    scope): then `closed` is False and nothing can be said about which arguments it receives."""
+
+    def __init__(self, p: Project, m: Func):
+        self.m = m
+        name = m.name
+        refs = 0
+        for mod in p.modules.values():
+            for x in ast.walk(mod.tree):
+                if (isinstance(x, ast.Attribute) and x.attr == name) or (isinstance(x, ast.Name) and x.id == name and isinstance(x.ctx, ast.Load)):
+                    refs += 1
+        self.calls: List[Tuple[Func, ast.Call]] = []
+        for g in p.funcs.values():
+            for x in walk_self(g.node):
+                if isinstance(x, ast.Call) and ((isinstance(x.func, ast.Attribute) and x.func.attr == name)
+                                                 or (isinstance(x.func, ast.Name) and x.func.id == name)):
+                    self.calls.append((g, x))
+        self.closed = refs == len(self.calls)
+
+    def passed(self, param: str) -> Optional[List[Tuple[Func, Optional[ast.AST]]]]:
+        """[(caller, expression bound to `param` | None when the call omits it)]; None when it cannot be read."""
+        if not self.closed:
+            return None
+        a = self.m.node.args
+        pos = [x.arg for x in a.posonlyargs + a.args]
+        if self.m.cls is not None and pos and pos[0] in ('self', 'cls'):
+            pos = pos[1:]
+        out = []
+        for (g, c) in self.calls:
+            if any(isinstance(x, ast.Starred) for x in c.args) or any(k.arg is None for k in c.keywords):
+                return None
+            v = None
+            if param in pos and len(c.args) > pos.index(param):
+                v = c.args[pos.index(param)]
+            for k in c.keywords:
+                if k.arg == param:
+                    v = k.value
+            out.append((g, v))
+        return out
+
+
+def call_sites(p: Project, m: Func) -> CallSites:
+    cache = p.__dict__.setdefault('_c17_callsites', {})
+    if m.qual not in cache:
+        cache[m.qual] = CallSites(p, m)
+    return cache[m.qual]
+
+
+def param_default(m: Func, name: str):
+    a = m.node.args
+    pos = a.posonlyargs + a.args
+    for x, d in zip(pos[len(pos) - len(a.defaults):], a.defaults):
+        if x.arg == name:
+            return d
+    for x, d in zip(a.kwonlyargs, a.kw_defaults):
+        if x.arg == name:
+            return d
+    return None
+
+
+def param_values(p: Project, m: Func, name: str) -> Optional[List[Tuple[Optional[Func], ast.AST]]]:
+    """What the parameter `name` of the private helper `m` holds over all the calls the analysed package makes:
+    ``[(scope, expression)]`` - the declared default (scope None) when some call omits it, the argument expressions otherwise.
+    An extra parameter with a default that no caller passes therefore evaluates to its default only ("omitted").  None when the
+    uses of `m` cannot be enumerated (public name, bound-method reference, star-arguments)."""
+    if not m.name.startswith('_') or m.name.startswith('__'):
+        return None
+    ps = call_sites(p, m).passed(name)
+    if ps is None or not ps:
+        return None
+    out: List[Tuple[Optional[Func], ast.AST]] = []
+    for (g, v) in ps:
+        if v is None:
+            d = param_default(m, name)
+            if d is None:
+                return None
+            if not any(sc is None for (sc, _e) in out):
+                out.append((None, d))
+        else:
+            out.append((g, v))
+    return out
+
+
+def _none_truth_atom(name: str, is_none: Optional[bool]):
+    """Truth of the tests over the local `name` when it is known to be None (True) / known not to be None (False)."""
+    def atom(e):
+        if is_none is None:
+            return None
+        if isinstance(e, ast.Compare) and len(e.ops) == 1 and isinstance(e.left, ast.Name) and e.left.id == name \
+                and isinstance(e.comparators[0], ast.Constant) and e.comparators[0].value is None:
+            if isinstance(e.ops[0], (ast.Is, ast.Eq)):
+                return {is_none}
+            if isinstance(e.ops[0], (ast.IsNot, ast.NotEq)):
+                return {not is_none}
+        if isinstance(e, ast.Name) and e.id == name and is_none:
+            return {False}
+        return None
+    return atom
+
+
+def values_at(p: Project, m: Func, name: str, nid: int) -> Optional[List[Tuple[Optional[Func], ast.AST]]]:
+    """The expressions the local/parameter `name` of `m` may stand for at CFG node `nid`: ``[(scope, expr)]`` with scope = the
+    function whose names the expression uses (m itself, a caller for a passed argument, None for a declared default).
+    Reaching definitions over the CFG; a parameter is what the package's calls pass (param_values), and a parameter value of
+    None does not survive a `<name> is None` / `not <name>` branch that rebinds it (the path is pruned with the test evaluated
+    for None).  None when a definition is not a plain assignment / a readable parameter."""
+    from .. import flow
+    from .c15_helpers import reaching
+    rd = reaching(p, m)
+    cfg = rd.cfg
+    out: List[Tuple[Optional[Func], ast.AST]] = []
+    for d in rd.at(nid, name):
+        if d.kind == 'assign' and d.value is not None:
+            out.append((m, d.value))
+            continue
+        if d.kind != 'param':
+            return None
+        pv = param_values(p, m, name)
+        if pv is None:
+            return None
+        redefs = {x.node for x in rd.defs if x.name == name and x.node is not None}
+        for (scope, v) in pv:
+            is_none = (v.value is None) if isinstance(v, ast.Constant) else None      # an argument expression: not known
+            atom = _none_truth_atom(name, is_none)
+
+            def feasible(a, b, l, atom=atom):
+                n = cfg.node(a)
+                if n.kind == 'test' and l in ('T', 'F'):
+                    return (l == 'T') in possible(n.ast, atom)
+                return True
+            if nid in flow.reachable(cfg, [cfg.entry], avoid_nodes=redefs - {nid}, edge_filter=feasible):
+                out.append((scope, v))
+    return out
+
+
 RET_NONE = 'None'
 
 
